@@ -176,6 +176,7 @@ class CFG(object):
     def _route_exception(self, src, clsname, start=None):
         """Connect `src` (an exc/raise node) to whatever may catch it."""
         i = len(self._frames) - 1 if start is None else start
+        covered = []     # classes an inner handler has already taken
         while i >= 0:
             fr = self._frames[i]
             if fr[0] == "finally":
@@ -187,9 +188,16 @@ class CFG(object):
                         self._edge(src, hnode)
                         return
                     if clsname is None:
+                        # an exception of a class that an inner handler
+                        # catches never arrives at this one
+                        if covered and all(any(self._exc_is_sub(n, c) is True
+                                               for c in covered)
+                                           for n in names):
+                            continue
                         self._edge(src, hnode)
                         if any(n in CATCH_ALL for n in names):
                             return
+                        covered.extend(names)
                         continue
                     verdicts = [self._exc_is_sub(clsname, n) for n in names]
                     if any(v is True for v in verdicts):
